@@ -29,7 +29,20 @@ RULES = [
     "duplicate-arm-name", "array-size-zero", "array-size-negative", "limit-zero", "enumerator-above-32-bits",
     "enumerator-negative", "discriminator-above-32-bits", "discriminator-negative", "array-in-union-arm",
     "optional-in-union-arm", "optional-array", "optional-bytes", "sizer-non-integer-typedef", "sizer-typedef-of-enum",
+    "duplicate-type-name-across-includes", "duplicate-constant-across-includes", "duplicate-enumerator-across-includes",
+    "valid-enum-alias", "valid-definition-free",
 ]
+
+# rules whose breaker lives in two included files (each fine alone): {rule: (text of a.prophy, text of b.prophy)}
+ACROSS = {
+    "duplicate-type-name-across-includes": ("struct XD { u8 a; };\n", "struct XD { u16 a; };\n"),
+    "duplicate-constant-across-includes": ("const XDK = 1;\n", "const XDK = 2;\n"),
+    "duplicate-enumerator-across-includes": ("enum XDE { XD_A = 1 };\n", "enum XDF { XD_A = 2 };\n"),
+}
+# valid texts that only some back-end trips over
+VALID_EXTRA = {
+    "valid-enum-alias": "enum XA { XA_A = 1, XA_B = 1, XA_C = 2 };\nstruct XAS { XA e; XA es[2]; };\n",
+}
 
 
 def make_plan(tape, prop):
@@ -171,6 +184,54 @@ class RulesRun(object):
             return Violation("C12", tag, ck, 0, msg)
         return None
 
+    def run_valid_variant(self, rule, text):
+        """a valid text that only one back-end may trip over: every output must be usable (C++ is always compiled)"""
+        if rule == "valid-definition-free":
+            text = ["", "// nothing here yet\n", "/* placeholder\n   header */\n", "\n\n"][self.plan["pick"] % 4]
+        else:
+            text = text + "\n" + VALID_EXTRA[rule]
+        self.text = text
+        self.faults[rule] = self.faults.get(rule, 0) + 1
+        self.states.add(rule)
+        self.trace.append("rule: %s" % rule)
+        self.log.update((rule + hashlib.sha1(text.encode()).hexdigest()).encode())
+        fs = simfs.FakeFS("/w")
+        fs.mkdir("/w/out")
+        fs.put("/w/s.prophy", text)
+        nodes, exc, so, se = simworld.run_prophyc(fs, ["--python_out", "/w/out", "--cpp_out", "/w/out", "--cpp_full_out",
+                                                       "/w/out", "/w/s.prophy"])
+        if exc is not None:
+            return self.v("valid-rejected", "C12/valid-schema-rejected/%s/%s" % (type(exc).__name__, _msgkey(exc)),
+                          "a valid schema (%s) was rejected: %s: %s\n%s" % (rule, type(exc).__name__, str(exc)[:300], text[-400:]))
+        try:
+            simworld.import_generated({"s": fs.get("/w/out/s.py")})
+        except Exception as e:
+            return self.v("import", "C12/accepted-but-python-import-fails/%s/%s" % (type(e).__name__, _msgkey(e)),
+                          "valid schema (%s) accepted but the generated Python module does not import: %s: %s\n%s" %
+                          (rule, type(e).__name__, str(e)[:300], text[-400:]))
+        self.count("valid_imported")
+        return self.compile_cpp(fs, text)
+
+    def compile_cpp(self, fs, text):
+        d = tempfile.mkdtemp(prefix="verif-c12-", dir="/dev/shm" if os.path.isdir("/dev/shm") else None)
+        try:
+            for ext in (".ppf.hpp", ".ppf.cpp", ".pp.hpp", ".pp.cpp"):
+                with open(os.path.join(d, "s" + ext), "w") as f:
+                    f.write(fs.get("/w/out/s" + ext))
+            for src, what in (("s.ppf.cpp", "cpp-full"), ("s.pp.cpp", "cpp-raw")):
+                p = subprocess.run(["g++", "-std=c++11", "-fsyntax-only", "-w", "-I", INCLUDE, "-I", d, src], cwd=d,
+                                   stdout=subprocess.PIPE, stderr=subprocess.PIPE, timeout=300)
+                self.count("compiled_" + what)
+                if p.returncode != 0:
+                    err = p.stderr.decode("utf-8", "replace")
+                    import re
+                    m = re.search(r"error: ([^\n]{0,100})", err)
+                    return self.v("cpp-compile", "C12/%s-does-not-compile/%s" % (what, _msgkey(m.group(1) if m else "x")),
+                                  "generated %s source does not compile:\n%s\n%s" % (what, err[:1200], text[-600:]))
+        finally:
+            shutil.rmtree(d, ignore_errors=True)
+        return None
+
     def compile_twin(self, fs, rule, text, when):
         """the legal twin of the rule breaker through the same compiler process: must be accepted and importable"""
         fs.mkdir("/w/twin")
@@ -197,16 +258,27 @@ class RulesRun(object):
         rule = plan["rule"]
         text = render.prophy_text(plan["schema"])
         twin_mode = plan.get("twin", 0)
-        extra = None if rule == "valid" else breaker(rule, plan["schema"], plan["pick"], helpers_only=bool(twin_mode))
+        across = ACROSS.get(rule)
+        if rule in VALID_EXTRA or rule == "valid-definition-free":
+            return self.run_valid_variant(rule, text)
+        if across:
+            twin_mode = 0
+        extra = None if rule == "valid" else "" if across else breaker(rule, plan["schema"], plan["pick"],
+                                                                      helpers_only=bool(twin_mode))
         if rule != "valid" and extra is None:
             rule = "valid"
         twin = breaker(rule, plan["schema"], plan["pick"], twin=True) if rule != "valid" and twin_mode else None
         valid_text = text
         if extra:
             text = text + "\n" + extra
-        self.text = text
         fs = simfs.FakeFS("/w")
         fs.mkdir("/w/out")
+        if across:
+            fs.put("/w/xa.prophy", across[0])
+            fs.put("/w/xb.prophy", across[1])
+            text = '#include "xa.prophy"\n#include "xb.prophy"\n' + text
+            extra = "xa.prophy: %sxb.prophy: %s" % across
+        self.text = text
         fs.put("/w/s.prophy", text)
         if twin is not None and twin_mode == 1:
             v = self.compile_twin(fs, rule, valid_text + "\n" + twin, "before")
@@ -249,23 +321,7 @@ class RulesRun(object):
                           (type(e).__name__, str(e)[:300], text))
         self.count("valid_imported")
         if plan["compile_cpp"]:
-            d = tempfile.mkdtemp(prefix="verif-c12-", dir="/dev/shm" if os.path.isdir("/dev/shm") else None)
-            try:
-                for ext in (".ppf.hpp", ".ppf.cpp", ".pp.hpp", ".pp.cpp"):
-                    with open(os.path.join(d, "s" + ext), "w") as f:
-                        f.write(fs.get("/w/out/s" + ext))
-                for src, what in (("s.ppf.cpp", "cpp-full"), ("s.pp.cpp", "cpp-raw")):
-                    p = subprocess.run(["g++", "-std=c++11", "-fsyntax-only", "-w", "-I", INCLUDE, "-I", d, src], cwd=d,
-                                       stdout=subprocess.PIPE, stderr=subprocess.PIPE, timeout=300)
-                    self.count("compiled_" + what)
-                    if p.returncode != 0:
-                        err = p.stderr.decode("utf-8", "replace")
-                        import re
-                        m = re.search(r"error: ([^\n]{0,100})", err)
-                        return self.v("cpp-compile", "C12/%s-does-not-compile/%s" % (what, _msgkey(m.group(1) if m else "x")),
-                                      "generated %s source does not compile:\n%s\n%s" % (what, err[:1200], text))
-            finally:
-                shutil.rmtree(d, ignore_errors=True)
+            return self.compile_cpp(fs, text)
         return None
 
 
